@@ -1,7 +1,6 @@
 (* C06 - Gabor: the response rebuilt from the truncated response differs from
    get_frequency_response by at most 2 * EFFECTIVE_SUPPORT_THRESHOLD. *)
 From Coq Require Import Reals ZArith List Lia Lra.
-From Interval Require Import Tactic.
 From Verif Require Import C06.Model C06.ArrayLemmas C06.CplxProofs C06.ModelR C06.ValueLemmas.
 From Verif Require Import C06.EnvBound.
 Import ListNotations.
@@ -104,14 +103,39 @@ Section Gabor.
       left. apply exp_increasing. lra.
   Qed.
 
+  (* numeric facts: exp(-ln 2 / 2) = 1/sqrt 2 <= 0.7072 and exp(-3/2) < 8/27 *)
+  Lemma inv_sqrt2_bound : 0 < exp (- ln 2 / 2) <= 7072 / 10000.
+  Proof.
+    set (s := exp (- ln 2 / 2)).
+    assert (Hs0 : 0 < s) by apply exp_pos.
+    assert (Hs2 : s * s = / 2).
+    { unfold s. rewrite <- exp_plus. replace (- ln 2 / 2 + - ln 2 / 2) with (- ln 2) by lra.
+      rewrite exp_Ropp, exp_ln by lra. reflexivity. }
+    split; [exact Hs0|]. destruct (Rle_lt_dec s (7072 / 10000)) as [H | H]; [exact H|]. nra.
+  Qed.
+
+  Lemma exp_m32_bound : 0 < exp (- 3 / 2) < 8 / 27.
+  Proof.
+    split; [apply exp_pos|].
+    replace (- 3 / 2) with (- (3 / 2)) by lra. rewrite exp_Ropp.
+    assert (H12 : 3 / 2 < exp (1 / 2)) by (pose proof (exp_ineq1 (1 / 2) ltac:(lra)); lra).
+    assert (E : exp (3 / 2) = exp (1 / 2) * exp (1 / 2) * exp (1 / 2)).
+    { rewrite <- !exp_plus. f_equal. lra. }
+    assert (27 / 8 < exp (3 / 2)) by (rewrite E; nra).
+    replace (8 / 27) with (/ (27 / 8)) by field.
+    apply Rinv_lt_contravar; [|lra].
+    apply Rmult_lt_0_compat; [lra | apply exp_pos].
+  Qed.
+
   Lemma k_sum : eps * exp (- ln 2 / 2) + eps * exp (- ln 2 / 2) * exp (- 3 / 2) <= eps.
   Proof.
-    assert (exp (- ln 2 / 2) * (1 + exp (- 3 / 2)) <= 1) by interval.
-    nra.
+    pose proof inv_sqrt2_bound as [S0 S1]. pose proof exp_m32_bound as [T0 T1].
+    set (s := exp (- ln 2 / 2)) in *. set (t := exp (- 3 / 2)) in *.
+    assert (s * (1 + t) <= 1) by nra. nra.
   Qed.
 
   Lemma k2_le : eps * exp (- ln 2 / 2) <= eps.
-  Proof. assert (exp (- ln 2 / 2) <= 1) by interval. nra. Qed.
+  Proof. pose proof inv_sqrt2_bound as [S0 S1]. nra. Qed.
 
   Hypothesis Hc : 0 <= c <= PI.
 
